@@ -27,6 +27,8 @@ SPECS = [
     ({"A": "[M, K, J]", "B": "[J]", "Z": "[M]"}, "Z[m] = take(A[m, k, j], B[j], 0)", [{}]),
     ({"A": "[M, I]", "B": "[K, N]", "C": "[K]", "Z": "[M, N]"}, "Z[m, n] = A[m, i] * B[k, n] * C[k]", [{}]),
     ({"I": "[C, W]", "F": "[S]", "O": "[Q]"}, "O[q] = I[c, 2*q + s] * F[s]", [{}]),
+    # more than ten levels of one rank (level numbers with two digits)
+    ({"A": "[K, M]", "Z": "[M]"}, "Z[m] = A[k, m]", [{"K": ["uniform_shape(%d)" % (2 ** (12 - i)) for i in range(11)]}]),
 ]
 # rank-order given for the output (differs from how the output is written); only the loop order is omitted
 RANK_ORDER_CASES = [
@@ -59,7 +61,9 @@ def expand(order, part):
     return res
 
 
-def yaml_of(decl, expr, part, explicit):
+def yaml_of(decl, expr, part, explicit, empty_lists=False):
+    """explicit: rank-order and loop-order written out; empty_lists: additionally "no partitioning" written out as an
+    empty directive list for every rank the mapping does not partition"""
     out = expr.split("[", 1)[0].strip()
     y = "einsum:\n  declaration:\n" + "".join("    %s: %s\n" % kv for kv in decl.items())
     y += "  expressions:\n    - %s\n" % expr
@@ -67,10 +71,16 @@ def yaml_of(decl, expr, part, explicit):
     if explicit:
         y += "  rank-order:\n" + "".join("    %s: %s\n" % kv for kv in decl.items())
         y += "  loop-order:\n    %s: [%s]\n" % (out, ", ".join(expand(written_ranks(expr), part)))
+    part = dict(part)
+    if empty_lists:
+        for r in written_ranks(expr):
+            part.setdefault(r, [])
     if part:
         y += "  partitioning:\n    %s:\n" % out
         for r, ds in part.items():
             y += "      %s: [%s]\n" % (r, ", ".join(ds))
+    elif empty_lists:
+        y += "  partitioning:\n    %s: {}\n" % out
     return y
 
 
@@ -81,8 +91,8 @@ def sweep():
     for decl, expr, parts in SPECS:
         for part in parts:
             texts = []
-            for explicit in (False, True):
-                y = yaml_of(decl, expr, part, explicit)
+            for explicit, empty in ((False, False), (True, False), (True, True)):
+                y = yaml_of(decl, expr, part, explicit, empty)
                 try:
                     texts.append(str(HiFiber(Einsum.from_str(y), Mapping.from_str(y))))
                 except Exception as e:      # noqa
@@ -93,10 +103,11 @@ def sweep():
             distinct.add(texts[0])
             if len(samples) < 3:
                 samples.append({"einsum": expr, "partitioning": part, "default_loop_order": expand(written_ranks(expr), part)})
-            if texts[0] != texts[1]:
+            if texts[0] != texts[1] or texts[0] != texts[2]:
                 fails.append({"name": "bounded/omitted-vs-explicit-default",
-                              "detail": "%s with partitioning %s: omitted mapping differs from the written default %s"
-                                        % (expr, part, expand(written_ranks(expr), part)),
+                              "detail": "%s with partitioning %s: omitted mapping differs from the written default %s%s"
+                                        % (expr, part, expand(written_ranks(expr), part),
+                                           "" if texts[0] != texts[1] else " when 'no partitioning' is written as empty directive lists"),
                               "witness": {"einsum": expr, "partitioning": part,
                                           "explicit_default_loop_order": expand(written_ranks(expr), part),
                                           "yaml_omitted": yaml_of(decl, expr, part, False)}})
